@@ -5,7 +5,9 @@ Nothing here knows how MotionCommander / PositionHlCommander compute anything.  
 * `Clock`       replaces the name `time` inside cflib.positioning.motion_commander / position_hl_commander.
                 `time()` is the virtual instant, `sleep(d)` refuses d < 0 exactly as time.sleep does, lets every live
                 setpoint task run up to now+d and then moves the instant to now+d.  The commanding code itself takes no
-                virtual time.
+                virtual time.  Instants are `VT` objects: the value the code sees (a symbolic real: start instant + the
+                durations slept) plus a shadow (number of the last symbolic addition, exact decimal offset since then) that
+                decides `deadline <= end of sleep` without the solver whenever the two instants differ by a known amount.
 * `FakeQueue`   replaces the name `Queue` inside motion_commander (the setpoint thread creates its queue through it).
                 `get(timeout=p)` on an empty queue either times out (virtual instant := the deadline of this wait, raises
                 queue.Empty) when the deadline lies inside the current sleep of the commanding task, or leaves the thread
@@ -26,6 +28,49 @@ from crosshair.tracers import NoTracing, is_tracing
 from crosshair.util import CrossHairValue
 
 from vf.explore import Yield, Inconclusive
+
+
+def _install_sqrt_lemma():
+    """math.sqrt on exact reals is modelled by vf/plugins/mathfn.py as a fresh r >= 0 with r*r == x.  When x is syntactically
+    a single square t*t (the distance of a one-axis move, the descent in land()) we add the *implied* fact r == |t|:
+    it cannot change satisfiability, it only spares the solver the non-linear reasoning."""
+    import math
+    import z3
+    from crosshair.core import _PATCH_REGISTRATIONS
+    from crosshair.libimpl.builtinslib import RealBasedSymbolicFloat
+    from crosshair.statespace import context_statespace
+    plug = _PATCH_REGISTRATIONS[math.sqrt]
+    if getattr(plug, '_c17_lemma', False):
+        return
+
+    def _sq(e):
+        while z3.is_add(e):
+            rest = [c for c in e.children() if not (z3.is_rational_value(c) and c.numerator_as_long() == 0)]
+            if len(rest) != 1:
+                return None
+            e = rest[0]
+        if z3.is_app_of(e, z3.Z3_OP_POWER) and z3.is_rational_value(e.arg(1)) and e.arg(1).numerator_as_long() == 2 \
+                and e.arg(1).denominator_as_long() == 1:
+            return e.arg(0)
+        if z3.is_mul(e) and e.num_args() == 2 and z3.eq(e.arg(0), e.arg(1)):
+            return e.arg(0)
+        return None
+
+    def sqrt(x):
+        r = plug(x)
+        with NoTracing():
+            if isinstance(x, RealBasedSymbolicFloat) and isinstance(r, RealBasedSymbolicFloat):
+                t = _sq(x.var)
+                if t is None:
+                    t = _sq(z3.simplify(x.var))
+                if t is not None:
+                    context_statespace().add(r.var == z3.If(t >= 0, t, -t))
+        return r
+    sqrt._c17_lemma = True
+    _PATCH_REGISTRATIONS[math.sqrt] = sqrt
+
+
+_install_sqrt_lemma()
 
 
 def is_sym(x):
